@@ -14,13 +14,17 @@ CHECKS = {
     "C01": dict(
         text="TLC checks UniqueInRange on every pre-state of BreadlogRun (IDs incl. 0 and the maximum, unusable/ignored statements, "
              "every lock value, cache on/off); TLC's own initial states are dumped and replayed on the binary in two ID embeddings "
-             "(base 0 and MaxId = u32::MAX) and both styles; Observe.tla judges every recorded run.",
+             "(base 0 and MaxId = u32::MAX) and both styles; Observe.tla judges every recorded run; a sample is also replayed "
+             "through BreadlogRun's own actions (RunTrace.tla, drift only). Thorough tier: Apalache discharges the allocator's "
+             "inductive invariant over unbounded IDs (spec/alloc).",
         technique="TLA+ model checked by TLC + replay of TLC-enumerated pre-states judged by trace validation (Observe.tla)",
         ref="5 C01", note=RUN_NOTE),
     "C02": dict(
         text="TLC checks LockDominates/NoReuse over histories of runs and developer edits with an I/O failure and a stop signal per "
              "run (kill and lock-write failure are refuted by TLC as expected: known findings); simulated model histories and fault "
-             "sweeps with follow-up edits are replayed; Observe.tla keeps the ghost relation ID -> statement across each history.",
+             "sweeps with follow-up edits are replayed; Observe.tla keeps the ghost relation ID -> statement across each history; "
+             "RunTrace.tla checks a sample of the runs against the model's own actions. Thorough tier: Apalache inductive invariant "
+             "over unbounded IDs, with the kill variant refuted.",
         technique="TLA+ model of histories checked by TLC + replay of simulated behaviours and fault sweeps judged by Observe.tla",
         ref="5 C02", note=RUN_NOTE),
     "C05": dict(
@@ -101,7 +105,9 @@ CHECKS = {
     "C07": dict(
         text="TLC checks AtomicFiles in every state of BreadlogRun with kill and I/O failures enabled at every step; the "
              "real binary is run with a kill before/after and an errno at every filesystem operation of an edit run and "
-             "every recorded trace is validated by Observe.tla, which evaluates the crash view after every event.",
+             "every recorded trace is validated by Observe.tla, which evaluates the crash view after every event; a sample of the "
+             "runs must also be behaviours of BreadlogRun (RunTrace.tla); a binding self-test corrupts one trace field at a time and "
+             "requires both trace specifications to reject it.",
         technique="TLA+ model checked by TLC + exhaustive fault placement on the binary judged by trace validation (Observe.tla)",
         ref="5 C07", note=RUN_NOTE),
     "C08": dict(
